@@ -93,6 +93,9 @@ var clientGarbage = []string{
 	":12\r\n", "-ERR x\r\n", "+hello\r\n", "$-1\r\n", "*-1\r\n", "*0\r\n", "\r\n", " \r\n", "\x00\x01\x02\r\n", "*1\r\n$0\r\n\r\n", "*1\r\n$3\r\n\r\n\x00\r\n",
 	"*3\r\n$3\r\nSET\r\n$1\r\nk\r\n$2\r\nv\r\n", "*2\r\n$4\r\nSCAN\r\n$20\r\n18446744073709551615\r\n", "*2\r\n$4\r\nSCAN\r\n$2\r\n-1\r\n", "*2\r\n$4\r\nSCAN\r\n$3\r\nabc\r\n",
 	"*2\r\n$4\r\nSCAN\r\n$19\r\n9223372036854775807\r\n", "*4\r\n$4\r\nEVAL\r\n$1\r\nx\r\n$1\r\n0\r\n", "*1\r\n$+3\r\nabc\r\n", "*01\r\n$4\r\nPING\r\n", "*1\r\n$04\r\nPING\r\n",
+	// well-formed requests whose key has braces in unusual places (the part of the key that is hashed is cut out of it)
+	"*2\r\n$3\r\nGET\r\n$6\r\na}b{c}\r\n", "*2\r\n$3\r\nGET\r\n$2\r\n}{\r\n", "GET }{\r\n", "*2\r\n$3\r\nDEL\r\n$1\r\n{\r\n", "*2\r\n$3\r\nGET\r\n$3\r\n}a{\r\n",
+	"*3\r\n$4\r\nMGET\r\n$4\r\n}}{{\r\n$2\r\n{}\r\n", "*2\r\n$3\r\nGET\r\n$0\r\n\r\n", "*5\r\n$4\r\nEVAL\r\n$8\r\nreturn 1\r\n$1\r\n1\r\n$4\r\n}x{y\r\n$1\r\na\r\n",
 	"GET\tk\r\n", "get k\n", "*2\r\n$3\r\nGET\r\n$1\r\n", "$", "*", "*1", "*1\r", "*1\r\n$", "*1\r\n$4\r\nPI",
 }
 
@@ -161,6 +164,8 @@ var backendGarbage = map[string][]string{
 		"-MOVED x y z w\r\n", "-ASK 99999 :\r\n", "-MOVED 1 :7000\r\n", "-CLUSTERDOWN\r\n", "-CLUSTERDOWN \r\n", "-clusterdown x\r\n", "-\r\n", "- \r\n", "-ERR\r\n",
 		// letters that only Unicode case folding maps to S and K (U+017F, U+212A), mixed case, odd spacing
 		"-A\u017fk 1 10.0.0.1:7000\r\n", "-AS\u212a 1 10.0.0.1:7000\r\n", "-a\u017f\u212a 2 10.0.0.2:7000\r\n", "-AsK 1 10.0.0.1:7000\r\n", "-Moved 1 10.0.0.1:7000\r\n", "-CLU\u017fTERDOWN x\r\n",
+		"-MOVED -1 10.0.0.1:7000\r\n", "-MOVED -16384 10.0.0.2:7000\r\n", "-ASK -1 10.0.0.1:7000\r\n", "-MOVED -9223372036854775808 10.0.0.1:7000\r\n", "-MOVED 16384 10.0.0.1:7000\r\n",
+		"-MOVED 99999999999999999999 10.0.0.2:7000\r\n", "-MOVED +5 10.0.0.1:7000\r\n", "-MOVED 0x10 10.0.0.1:7000\r\n", "-ASK 1.5 10.0.0.2:7000\r\n",
 		"-MOVED 1 10.0.0.1:7000 extra words\r\n", "-ASK  1  10.0.0.1:7000\r\n", "-MOVED\t1\t10.0.0.1:7000\r\n",
 		"$-1\r\n", "*-1\r\n", "*0\r\n", ":x\r\n", "$abc\r\n", "$5\r\nab\r\n", "+OK\n", "?what\r\n", "*2\r\n$1\r\na\r\n", "$536870913\r\n", "*1048577\r\n",
 	},
